@@ -19,6 +19,7 @@ CONSTANTS Family, MaxRoutes, MaxSegs, MaxHdrOps,
                      \*   "LIFO" insert before equal rank (the mutation named in C01)
                      \*   "D11"  a failed registration leaves its subtrees behind
                      \*   "D6"   Headers() does not reach the implicit short-form leaf
+                     \*   "D15"  the handle of a multi-method call only holds the last method's leaf
                      \*   "D7"   an optional static leaf is put into the shortcut table
                      \*   "D16"  a static route shadowed by an earlier optional one is put into the shortcut table
           EmitCases
@@ -117,20 +118,42 @@ Register(m, r) ==
                    THEN [fast EXCEPT ![m] = @ \cup {<<RouteText(r), res.leaf>>}] ELSE fast
         /\ UNCHANGED hops
 
-\* Route.Headers(pairs...) on the handle of registration i
-SetHeaders(i, hs) ==
-  /\ Family = "hdr" /\ Len(hops) < MaxHdrOps /\ i \in 1..Len(H) /\ H[i].ok
-  /\ LET m == H[i].m
-         st == trees[m]
-         l == LeafOfReg(st, i, FALSE)
-         ls1 == [st.leaves EXCEPT ![l].hdr = hs]
-         ls2 == IF GateShort /\ HasLeaf(st, i, TRUE) THEN [ls1 EXCEPT ![LeafOfReg(st, i, TRUE)].hdr = hs] ELSE ls1
-     IN /\ trees' = [trees EXCEPT ![m].leaves = ls2]
-        /\ fast' = [fast EXCEPT ![m] = { x \in @ : x[2] # l }]
-        /\ H' = [H EXCEPT ![i].hdr = hs]
-        /\ hops' = Append(hops, [reg |-> i, hdr |-> hs])
+\* router.Routes(path, "GET,POST", ...): one call, one registration per method, ONE handle
+RegisterBoth(r) ==
+  /\ Family = "hdr" /\ Len(H) + 2 <= MaxRoutes /\ hops = <<>>
+  /\ LET i == Len(H) + 1
+         r1 == I_AddRoute(trees["GET"], r, i, Lifo)
+         r2 == I_AddRoute(trees["POST"], r, i + 1, Lifo)
+         s1 == [nodes |-> r1.nodes, leaves |-> r1.leaves]
+         s2 == [nodes |-> r2.nodes, leaves |-> r2.leaves]
+         fs(st, res) == res.ok /\ I_LeafStatic(st, res.leaf) /\ ~st.leaves[res.leaf].seg.opt /\ ~Shadowed(st, res.leaf)
+     IN /\ r1.ok /\ r2.ok
+        /\ trees' = [trees EXCEPT !["GET"] = s1, !["POST"] = s2]
+        /\ H' = H \o << [m |-> "GET", r |-> r, ok |-> TRUE, hdr |-> <<>>, call |-> i],
+                        [m |-> "POST", r |-> r, ok |-> TRUE, hdr |-> <<>>, call |-> i] >>
+        /\ fast' = [fast EXCEPT !["GET"] = IF fs(s1, r1) THEN @ \cup {<<RouteText(r), r1.leaf>>} ELSE @,
+                               !["POST"] = IF fs(s2, r2) THEN @ \cup {<<RouteText(r), r2.leaf>>} ELSE @]
+        /\ UNCHANGED hops
+
+\* Route.Headers(pairs...) on the handle returned by call c.  The property: every registration of
+\* the call is gated, in both forms.  Deviations: D15 the handle only holds the last method's leaf,
+\* D6 the implicit short-form leaf is never reached.
+SetHeaders(c, hs) ==
+  /\ Family = "hdr" /\ Len(hops) < MaxHdrOps /\ c \in 1..Len(H) /\ H[c].ok /\ H[c].call = c
+  /\ LET regs == { i \in 1..Len(H) : H[i].call = c }
+         held == IF "D15" \in Dev THEN { CHOOSE i \in regs : \A q \in regs : q <= i } ELSE regs
+         newLeaves(m) ==
+           LET st == trees[m] IN
+           [l \in 1..Len(st.leaves) |->
+              IF st.leaves[l].reg \in held /\ H[st.leaves[l].reg].m = m /\ (~st.leaves[l].short \/ GateShort)
+              THEN [st.leaves[l] EXCEPT !.hdr = hs] ELSE st.leaves[l]]
+     IN /\ trees' = [m \in MethodsU |-> [trees[m] EXCEPT !.leaves = newLeaves(m)]]
+        /\ fast' = [m \in MethodsU |-> { x \in fast[m] : ~(trees[m].leaves[x[2]].reg \in held) }]
+        /\ H' = [i \in 1..Len(H) |-> IF i \in regs THEN [H[i] EXCEPT !.hdr = hs] ELSE H[i]]
+        /\ hops' = Append(hops, [reg |-> c, hdr |-> hs])
 
 Next == \/ \E m \in MethodsU, r \in RouteU : Register(m, r)
+        \/ \E r \in RouteU : RegisterBoth(r)
         \/ \E i \in 1..Len(H), hs \in HdrSpecs : SetHeaders(i, hs)
 Spec == Init /\ [][Next]_vars
 
@@ -186,7 +209,7 @@ WinStr(m, rh, k) == IF k > Len(PathSeq) THEN ""
 HKey(h) == IF h = "" THEN "none" ELSE h
 Wins == [m \in MethodsU |-> [hk \in { HKey(rh.K) : rh \in RH } |->
             WinStr(m, CHOOSE rh \in RH : HKey(rh.K) = hk, 1)]]
-AtEnd == Len(H) = MaxRoutes \/ hops # <<>> \/ Family = "reg"
+AtEnd == Len(H) = MaxRoutes \/ hops # <<>>
 EmitCase == (EmitCases /\ Len(H) > 0 /\ AtEnd) =>
                PrintT("CASE " \o ToJson([fam |-> Family, H |-> H, wins |-> Wins, hops |-> hops]))
 ====
